@@ -91,6 +91,10 @@ type Desc struct {
 	Calls     []Call
 	Scenarios []Scn
 	UseLocals bool
+	// YAMLAnchors: the YAML rendering writes the first request's headers once under an anchor and
+	// the later requests' headers as a merge of it (<<: *hdr0) plus the keys they add or override —
+	// the documented YAML counterpart of HCL locals + merge() (docs/eng/scenario/locals.md)
+	YAMLAnchors bool
 }
 
 // ---------------------------------------------------------------- generators
@@ -295,6 +299,55 @@ func genDesc(rng *rand.Rand, hostile int, withFiles bool) Desc {
 	return d
 }
 
+// withAnchors rewrites a description so that requests after the first share the first one's
+// header keys (one value overridden, one key added) and asks the YAML renderer for anchors.
+func withAnchors(d Desc) Desc {
+	if len(d.Requests) < 2 || len(d.Requests[0].Headers) == 0 {
+		return d
+	}
+	base := d.Requests[0].Headers
+	for j := 1; j < len(d.Requests); j++ {
+		if j%2 == 0 && len(d.Requests) > 2 {
+			continue // keeps headers of its own
+		}
+		h := append([]KV(nil), base...)
+		h[(j-1)%len(h)].V += fmt.Sprintf(" overridden by %d", j)
+		extra := fmt.Sprintf("X-Only-%d", j)
+		dup := false
+		for _, kv := range h {
+			dup = dup || kv.K == extra
+		}
+		if !dup {
+			h = append(h, KV{K: extra, V: "added"})
+		}
+		d.Requests[j].Headers = h
+	}
+	d.YAMLAnchors = true
+	return d
+}
+
+// anchoredHeaders renders request j's headers as a merge of the anchor when they contain all of
+// the anchor's keys; ok=false ⇒ render them literally.
+func anchoredHeaders(base, h []KV) (string, bool) {
+	bm := kvMap(base)
+	hm := kvMap(h)
+	if len(bm) != len(base) || len(hm) != len(h) {
+		return "", false
+	}
+	for k := range bm {
+		if _, ok := hm[k]; !ok {
+			return "", false
+		}
+	}
+	parts := []string{"<<: *hdr0"}
+	for _, kv := range h {
+		if v, ok := bm[kv.K]; !ok || v != kv.V {
+			parts = append(parts, jq(kv.K)+": "+jq(kv.V))
+		}
+	}
+	return "{" + strings.Join(parts, ", ") + "}", true
+}
+
 // ---------------------------------------------------------------- YAML renderer
 
 func jq(s string) string {
@@ -372,8 +425,16 @@ func (d Desc) YAML() string {
 	}
 	if len(d.Requests) > 0 {
 		b.WriteString("requests:\n")
-		for _, r := range d.Requests {
-			fmt.Fprintf(&b, "  - name: %s\n    method: %s\n    uri: %s\n    headers: %s\n", jq(r.Name), jq(r.Method), jq(r.URI), yamlMap(r.Headers))
+		for ri, r := range d.Requests {
+			hdr := yamlMap(r.Headers)
+			if d.YAMLAnchors && ri == 0 {
+				hdr = "&hdr0 " + hdr
+			} else if d.YAMLAnchors {
+				if m, ok := anchoredHeaders(d.Requests[0].Headers, r.Headers); ok {
+					hdr = m
+				}
+			}
+			fmt.Fprintf(&b, "  - name: %s\n    method: %s\n    uri: %s\n    headers: %s\n", jq(r.Name), jq(r.Method), jq(r.URI), hdr)
 			if r.Tag != nil {
 				fmt.Fprintf(&b, "    tag: %s\n", jq(*r.Tag))
 			}
@@ -1317,6 +1378,12 @@ func main() {
 	for i := 0; i < n; i++ {
 		hostile := []int{0, 15, 40, 80}[i%4]
 		d := genDesc(rng, hostile, true)
+		if i%5 == 3 {
+			d = withAnchors(d)
+			if d.YAMLAnchors {
+				res.Count("descriptions_with_yaml_anchors", 1)
+			}
+		}
 		runDesc(res, d, rng, i)
 	}
 	concurrentLoads(res, rng, vkit.N(150, 3000))
